@@ -229,6 +229,19 @@ CHECKS = {
         technique="TLA+ model of the write protocol; TLC-generated crash/fault/schedule behaviours forced through the real store via hooks",
         engine="tlc+vh",
     ),
+    "C19": dict(
+        category="model_checking",
+        text="Bind.tla models the bind calls of one process with the process-global inferred type system as explicit state; "
+             "every call is specified to succeed with a result that is a function of its arguments only. TLC enumerates all "
+             "histories that touch that state and the harness runs each in a fresh process. Value faithfulness reuses "
+             "Schema.tla: for every inhabitant TLC enumerates, a Go value is constructed independently of bindnode and "
+             "Wrap / Unwrap / Marshal / Unmarshal are compared with the specified views and with the constructed value.",
+        design_ref="DESIGN.md section 4, C19",
+        note="Go-type vocabulary = a hand-written library (exploration by enumeration for that dimension); trusted: TLC, "
+             "reflect, harness.",
+        technique="TLA+ history model with explicit registry state, histories replayed one per process; TLC-enumerated typed values replayed through Wrap/Unwrap/Marshal",
+        engine="tlc+vh",
+    ),
 }
 
 NOT_YET = "check not built yet in this round (planned, see DESIGN.md section 4)"
